@@ -81,7 +81,10 @@ def check_tree(case, ctx):
     lo = min(iv[0] for iv in ivs)
     hi = max(iv[1] for iv in ivs)
 
-    queries = [[conv(kind, a), conv(kind, b)] for a, b in case["queries"]]
+    qkind = case.get("query_kind") or kind
+    if qkind != kind:
+        ctx.label("query-type-%s-on-%s-tree" % (qkind, kind))
+    queries = [[conv(qkind, a), conv(qkind, b)] for a, b in case["queries"]]
     any_hit = any_miss = False
     if queries:
         res = tree.query(queries)
@@ -114,7 +117,7 @@ def check_tree(case, ctx):
                       lambda: "intervals=%r query=%r expected=%r got=%r" % (
                           ivs, q, exp, r))
 
-    points = [conv(kind, p) for p in case["points"]]
+    points = [conv(qkind, p) for p in case["points"]]
     if points:
         res = tree.query_points(points)
         ctx.check(len(res) == len(points), "query_points/result-count", "")
@@ -191,8 +194,14 @@ def tree_cases(draw):
     members = draw(st.lists(st.fixed_dictionaries({
         "as": st.sampled_from(["scalar", "tuple", "list"]),
         "v": interval(wide)}), min_size=0, max_size=6))
+    query_kind = None
+    if kind == "int" and draw(st.integers(0, 2)) == 0:
+        query_kind = "float"        # fractional queries on an integer tree
+    elif kind == "float" and draw(st.integers(0, 3)) == 0:
+        query_kind = "int"
     return {"kind": kind, "container": container, "intervals": intervals,
-            "queries": queries, "points": points, "members": members}
+            "queries": queries, "points": points, "members": members,
+            "query_kind": query_kind}
 
 
 def small_tree_cases():
@@ -221,11 +230,44 @@ def check_match(case, ctx):
         sets = []
         for k, spec in enumerate(case["sets"]):
             root = box.mkdir("set%d" % k)
+            single = spec.get("single")
+            if single is not None:
+                # a single-file fileset (no placeholder): explicit coverage
+                # or the default datetime.min .. datetime.max
+                path = root + "/single_%d.dat" % k
+                with open(path, "wb"):
+                    pass
+                cov = single["coverage"]
+                t0, t1 = (dt.datetime.min, dt.datetime.max) if cov is None \
+                    else cov
+                pop = G.Population(root, spec["template"], [G.File(
+                    path, "single_%d.dat" % k, t0, t1, {}, t0, t1, "")])
+                pop.path = path
+                pops.append(pop)
+                sets.append(FileSet(path, name="set%d" % k,
+                                    time_coverage=None if cov is None
+                                    else tuple(cov)))
+                ctx.label("single-file-set",
+                          "single-default-coverage" if cov is None
+                          else "single-explicit-coverage")
+                continue
             pop = G.make_population(root, spec["template"], spec["files"])
             pops.append(pop)
-            sets.append(FileSet(pop.path, name="set%d" % k,
-                                placeholder=G.user_placeholder_arg(
-                                    spec["template"])))
+            cov_s = spec["template"]["coverage_s"]
+            tc = None if cov_s is None else dt.timedelta(seconds=cov_s)
+            late = spec.get("late_coverage") and tc is not None
+            fs_ = FileSet(pop.path, name="set%d" % k,
+                          time_coverage=None if late else tc,
+                          placeholder=G.user_placeholder_arg(
+                              spec["template"]))
+            if late:
+                # history: searched before the coverage is made known
+                ctx.label("coverage-assigned-late")
+                list(fs_.find(no_files_error=False))
+                fs_.time_coverage = tc
+            if tc is not None:
+                ctx.label("coverage-from-time_coverage")
+            sets.append(fs_)
         start, end = case["start"], case["end"]
         mi = case["max_interval"]
         if mi is None:
@@ -244,9 +286,17 @@ def check_match(case, ctx):
         exp2 = sorted([f for f in pops[1].files if G.in_period(f, s, e)],
                       key=lambda f: (f.t0, f.t1))
         expected = []
+        def shifted(t, delta):
+            try:
+                return t + delta
+            except OverflowError:
+                return dt.datetime.min if delta < dt.timedelta(0) \
+                    else dt.datetime.max
+
         for f in exp1:
             partners = [g for g in exp2
-                        if g.t0 - widen <= f.t1 and g.t1 + widen >= f.t0]
+                        if shifted(g.t0, -widen) <= f.t1
+                        and shifted(g.t1, widen) >= f.t0]
             if partners:
                 expected.append((f, partners))
         empty_side = not exp1 or not exp2
